@@ -130,7 +130,7 @@ Proof.
   set (n := length (append_varint (Z.of_nat (length b)))).
   replace (Z.of_nat n <? 0) with false by (symmetry; apply Z.ltb_ge; lia).
   rewrite Nat2Z.id. rewrite (skipn_app_l _ (b ++ rest) n) by reflexivity.
-  rewrite app_length.
+  rewrite not_has_len_z. rewrite app_length.
   replace (Z.of_nat (length b + length rest) <? Z.of_nat (length b)) with false by (symmetry; apply Z.ltb_ge; lia).
   rewrite Nat2Z.id. rewrite (firstn_app_l b rest) by reflexivity.
   f_equal. rewrite app_length. fold n. lia.
